@@ -484,7 +484,10 @@ func TestC12Enum(t *testing.T) {
 }
 
 func TestC06(t *testing.T) {
-	rapid.Check(t, func(rt *rapid.T) { check(t, rt, "C06", "TestC06", genC06(rt), 1) })
+	rapid.Check(t, func(rt *rapid.T) {
+		sc := genC06(rt)
+		check(t, rt, "C06", "TestC06", sc, max(sc.Repeat, 1))
+	})
 }
 
 func TestC07(t *testing.T) {
